@@ -11,7 +11,7 @@ L3  AuthMon.tla judges every send (NoLeak, TokenOnlyForItsHost, ReuseKeyScopes, 
 import json
 import os
 
-from vlib import Infra, go_test, l1, log, monitor, read_ndjson, report, trace_of
+from vlib import Infra, go_test, l1, log, monitor, read_ndjson, report, trace_any, trace_of
 
 
 def drive(ctx, env, name="drv"):
@@ -52,5 +52,5 @@ def run(ctx, replay=None):
         "evaluations": summ["events"], "distinct_nontrivial": summ["scenarios"],
         "rule": "one evaluation = one recorded event (call, outgoing request, response, return) of the real auth client, or one "
                 "CleanScopes evaluation; distinct_nontrivial counts scenarios (each has at least two calls)",
-        "traces_validated_against_impl": summ["scenarios"], "samples": trace_of(summ["files"][0], mid, 14), "exhaustive": False,
+        "traces_validated_against_impl": summ["scenarios"], "samples": trace_any(summ["files"], mid, 14), "exhaustive": False,
     }
